@@ -355,7 +355,7 @@ type Interp struct {
 	onExtCall func(site ssa.Instruction, tag string, args []AV) // invocation of a caller-supplied callback
 	globals   map[*ssa.Global]AV                                // known initial values of package-level variables
 	profile   map[string]int
-	execInstr map[ssa.Instruction]bool                          // instructions reached on executable paths
+	execInstr map[ssa.Instruction]bool // instructions reached on executable paths
 }
 
 func newInterp(w *World) *Interp {
@@ -388,6 +388,15 @@ func (w *World) globalInits() map[*ssa.Global]AV {
 	initFn := w.SSA.Func("init")
 	if initFn == nil {
 		return out
+	}
+	for _, b := range initFn.Blocks {
+		for _, in := range b.Instrs {
+			if st, ok := in.(*ssa.Store); ok {
+				if g, ok := st.Addr.(*ssa.Global); ok {
+					count[g]++
+				}
+			}
+		}
 	}
 	for _, b := range initFn.Blocks {
 		for _, in := range b.Instrs {
@@ -838,6 +847,10 @@ func (ip *Interp) runBlock(fr *frame, b *ssa.BasicBlock) {
 		case *ssa.Defer, *ssa.Go, *ssa.Send:
 			// not used by the package; ignore
 		case ssa.Value:
+			if o, forced := ip.overrides[x]; forced {
+				fr.set(x, o)
+				continue
+			}
 			r, cont := ip.evalValue(fr, x, &st)
 			if !cont {
 				return
@@ -1454,4 +1467,19 @@ func (ip *Interp) faultStrings() []string {
 	}
 	sort.Strings(out)
 	return out
+}
+
+func (ip *Interp) dumpProfile() {
+	type kv struct {
+		k string
+		v int
+	}
+	var kvs []kv
+	for k, v := range ip.profile {
+		kvs = append(kvs, kv{k, v})
+	}
+	sort.Slice(kvs, func(i, j int) bool { return kvs[i].v > kvs[j].v })
+	for i := 0; i < len(kvs) && i < 15; i++ {
+		fmt.Printf("     prof %8d %s\n", kvs[i].v, kvs[i].k)
+	}
 }
